@@ -293,6 +293,9 @@ def context_owners(evs, li):
     return own
 
 
+FORBIDDEN_SIDECARS = {"m.mv2-wal", "m.mv2-shm", "m.mv2-lock", "m.mv2-journal", ".m.mv2.wal", ".m.mv2.shm", ".m.mv2.lock", ".m.mv2.journal"}
+
+
 def report(diags, out, prop, engine="core"):
     """Turns diagnosed rejections into divergences owned by `prop`."""
     n_other = 0
@@ -305,6 +308,8 @@ def report(diags, out, prop, engine="core"):
             if name == "result":
                 owner = RESULT_OWNER.get(ev.get("ev"), "C01")
             owners = {owner} | context_owners(evs, li)
+            if ev.get("ev") in ("create", "open", "open_ro") and any(x in FORBIDDEN_SIDECARS for x in ev.get("obs", {}).get("dir", [])):
+                owners.add("C19")       # a call made next to a forbidden sidecar: whatever it did wrong belongs to the single-file guarantee
             if name == "ro.file" or (ev.get("obs", {}).get("ro") and name in ("count", "frame.st", "frame.pay", "frame.uri")):
                 owners.add("C18")
             if prop in owners:
@@ -330,7 +335,7 @@ def report(diags, out, prop, engine="core"):
 
 
 RESULT_OWNER = {"put": "C01", "update": "C08", "delete": "C08", "commit": "C01", "open": "C01", "ticket": "C25",
-                "signed_ticket": "C25", "bind": "C25", "bind_only": "C25", "unbind": "C25",
+                "sidecar": "C19", "rm_sidecars": "C19", "signed_ticket": "C25", "bind": "C25", "bind_only": "C25", "unbind": "C25",
                 "create": "C19", "open_ro": "C18", "vacuum": "C42", "timeline": "C15", "by_uri": "C08", "doctor": "C21"}
 
 
@@ -688,6 +693,54 @@ def fam_bigfile(rng, quick):
     return out
 
 
+def fam_sidecars(rng, quick):
+    """C19, second half: create / open / open_read_only refuse to run next to a forbidden sidecar (-wal -shm -lock -journal and the
+    dot-prefixed .wal .shm .lock .journal) and change nothing; other files in the directory do not disturb them."""
+    forb = [("-wal", False), ("-shm", False), ("-lock", False), ("-journal", False), (".wal", True), (".shm", True), (".lock", True), (".journal", True)]
+    harmless = [("-bak", False), (".wal", False), (".tmp", True), ("-wal", True), ("-walx", False)]
+    out = []
+    # refused create: nothing is created
+    sfx, dot = rng.choice(forb)
+    out.append([{"op": "sidecar", "suffix": sfx, "dot": dot}, {"op": "create"}, {"op": "rm_sidecars"}, {"op": "create"},
+                {"op": "put", "uri": "mv2://s1", "pay": 1, "cls": "text", "size": 60, "ts": 1}, {"op": "close"}, {"op": "open"}, {"op": "close"}])
+    ops = [{"op": "create"}, {"op": "put", "uri": "mv2://s1", "pay": 1, "cls": "text", "size": 60, "ts": 1}, {"op": "commit"},
+           {"op": "put", "uri": "mv2://s2", "pay": 2, "cls": "bin", "size": 200, "ts": 2}, {"op": "abandon"}]
+    for sfx, dot in forb:
+        ops += [{"op": "sidecar", "suffix": sfx, "dot": dot}, {"op": "open"}, {"op": "open_ro"}, {"op": "rm_sidecars"}]
+    ops += [{"op": "open_ro"}, {"op": "close"}]
+    for sfx, dot in harmless:
+        ops += [{"op": "sidecar", "suffix": sfx, "dot": dot}, {"op": "open_ro"}, {"op": "close"}]
+    ops += [{"op": "open"}, {"op": "put", "uri": "mv2://s3", "pay": 3, "cls": "text", "size": 40, "ts": 3}, {"op": "commit"}, {"op": "close"}, {"op": "rm_sidecars"},
+            {"op": "open"}, {"op": "close"}]
+    out.append(ops)
+    # a memory whose lexical index is large (well above 64 KiB of segments): reopening it unpacks the index somewhere - not here
+    ops = [{"op": "create"}]
+    for i in range(130 if quick else 260):
+        ops.append({"op": "put", "uri": "mv2://big/%d" % i, "pay": i + 1, "cls": "text", "size": 1000, "ts": i % 13, "words": [i % 8], "atoms": ["w%d" % (i % 8)]})
+    ops += [{"op": "commit"}, {"op": "close"}, {"op": "open"}, {"op": "timeline", "limit": 2}, {"op": "search", "toks": ["w3"], "top_k": 3, "no_sketch": True},
+            {"op": "close"}, {"op": "open_ro"}, {"op": "timeline", "limit": 2}, {"op": "close"}, {"op": "doctor"}, {"op": "open"}, {"op": "close"}]
+    out.append(ops)
+    return out
+
+
+def fam_vec_edges(rng, quick):
+    """C14: embeddings given per chunk only (the first embedded content of a memory, and later ones), with and without a parent
+    embedding; committed embeddings followed by a log-growing put and a lost handle (replay on open must keep them)."""
+    out = []
+    out.append([{"op": "create"}, {"op": "put", "uri": "mv2://ce", "pay": 1, "cls": "long", "size": 5000, "ts": 1, "chunk_embs": [1, 2, 3, 4, 5, 6, 7, 8]},
+                {"op": "commit"}, {"op": "vecset"}, {"op": "close"}, {"op": "open", "full": True}, {"op": "vecset"},
+                {"op": "put", "uri": "mv2://ce2", "pay": 2, "cls": "long", "size": 2700, "ts": 2, "emb": 9, "chunk_embs": [3, 8, 4, 5]},
+                {"op": "put", "uri": "mv2://p", "pay": 3, "cls": "text", "size": 80, "ts": 3, "emb": 6}, {"op": "commit"}, {"op": "vecset"},
+                {"op": "delete", "frame": 0}, {"op": "commit"}, {"op": "vecset"}, {"op": "close"}, {"op": "open_ro", "full": True}, {"op": "vecset"}, {"op": "close"}])
+    for size in ([70000] if quick else [70000, 140000, 300000]):
+        out.append([{"op": "create"}, {"op": "put", "uri": "mv2://a", "pay": 1, "cls": "text", "size": 100, "ts": 1, "emb": 2},
+                    {"op": "put", "uri": "mv2://b", "pay": 2, "cls": "long", "size": 2600, "ts": 2, "chunk_embs": [4, 5, 6]}, {"op": "commit"}, {"op": "vecset"},
+                    {"op": "put", "uri": "mv2://big", "pay": 3, "cls": "bin", "size": size, "ts": 3}, {"op": "abandon"}, {"op": "open", "full": True}, {"op": "vecset"},
+                    {"op": "put", "uri": "mv2://c", "pay": 4, "cls": "text", "size": 60, "ts": 4, "emb": 7}, {"op": "close"}, {"op": "open_ro", "full": True},
+                    {"op": "vecset"}, {"op": "close"}])
+    return out
+
+
 def fam_known(rng, quick):
     """Deterministic witnesses of the recorded findings (so a run shows them, and shows when they are gone)."""
     grow = [{"op": "create"},
@@ -836,7 +889,7 @@ def fam_payload_sizes(rng, quick):
     return out
 
 
-EXTRA_FAMILIES += [fam_capacity_edges, fam_payload_sizes, fam_many_small, fam_tickets, fam_signed_tickets, fam_mesh, fam_legacy, fam_bigfile, fam_known, fam_maintenance, fam_cards]
+EXTRA_FAMILIES += [fam_capacity_edges, fam_payload_sizes, fam_many_small, fam_tickets, fam_signed_tickets, fam_mesh, fam_legacy, fam_bigfile, fam_sidecars, fam_vec_edges, fam_known, fam_maintenance, fam_cards]
 
 DEV_OWNER = {"D26_value_rewritten": "C26", "D01_commit_growth": "C01", "D08_update_chunked_empty": "C08", "D24_pending_ignored": "C24",
              "D24_payload_end_beyond_capacity": "C24"}
